@@ -5,6 +5,7 @@ CONSTANTS
   MaxChange = 2
   Bug = "none"
   Emit = FALSE
+  Directed = FALSE
   Shapes <- ShapesDeep
 INVARIANTS InvLaws
 CHECK_DEADLOCK FALSE
